@@ -998,20 +998,32 @@ def _mk_operand(ir, kind, shape, idx):
     if kind == "val":
         return ir.Value(name=f"v{idx}", type=ir.TensorType(ir.DataType.FLOAT), shape=None if shape is None else ir.Shape(list(shape)))
     arr = np.arange(1, int(np.prod(shape, dtype=np.int64)) + 1, dtype=np.float32).reshape(shape)
+    if kind == "constns":       # a constant WITHOUT a declared shape (its payload has shape `shape`)
+        return ir.Value(name=f"c{idx}", type=ir.TensorType(ir.DataType.FLOAT), const_value=ir.tensor(arr))
     return ir.val(f"c{idx}", ir.DataType.FLOAT, tuple(shape), const_value=ir.tensor(arr))
 
 
-def real_refresh(op, operands, out_shape):
-    """-> (out shape dims after the REAL _refresh_elementwise_output_shape, [is_scalar_const of each operand])"""
+def refresh_supports_rewired():
+    import inspect
+    from jax2onnx.converter import ir_optimizations as opt
+    return "rewired" in inspect.signature(opt._refresh_elementwise_output_shape).parameters
+
+
+def real_refresh(op, operands, out_shape, fold=False):
+    """-> (out shape dims after the REAL _refresh_elementwise_output_shape, [is_scalar_const of each operand]).
+    fold=True: called the way the fold sites call it (rewired=True where the tree has that mode)"""
     import onnx_ir as ir
     from jax2onnx.converter import ir_optimizations as opt
     vals = [_mk_operand(ir, k, s, i) for i, (k, s) in enumerate(operands)]
     out = ir.Value(name="out", type=ir.TensorType(ir.DataType.FLOAT), shape=None if out_shape is None else ir.Shape(list(out_shape)))
     node = ir.Node(op_type=op, domain="", inputs=vals, outputs=[out], name="n")
     ir.Graph(name="g", inputs=[v for v, (k, _s) in zip(vals, operands) if k == "val"], outputs=[out], nodes=[node],
-             initializers=[v for v, (k, _s) in zip(vals, operands) if k == "const"], opset_imports={"": 21})
+             initializers=[v for v, (k, _s) in zip(vals, operands) if k in ("const", "constns")], opset_imports={"": 21})
     scal = [bool(opt._is_scalar_const_value(v)) for v in vals]
-    opt._refresh_elementwise_output_shape(node)
+    if fold and refresh_supports_rewired():
+        opt._refresh_elementwise_output_shape(node, rewired=True)
+    else:
+        opt._refresh_elementwise_output_shape(node)
     return (None if out.shape is None else tuple(out.shape.dims)), scal
 
 
@@ -1038,6 +1050,8 @@ UNKNOWN_RUNTIME_SHAPES = [(2, 3), (4, 1, 3), ()]       # run-time shapes tried f
 def enc_operand(kind, shape):
     if kind == "val":
         return f"(mkOp {enc_odims(_shape_dims_of(shape))} None false)"
+    if kind == "constns":
+        return f"(mkOp None (Some {int(np.prod(shape, dtype=np.int64))}%nat) true)"
     return f"(mkOp {enc_odims(_shape_dims_of(shape))} (Some {int(np.prod(shape, dtype=np.int64))}%nat) true)"
 
 
@@ -1172,6 +1186,150 @@ def tie_loosen(ctx):
     return len(items)
 
 
+STALE = (9, 9)          # a deliberately wrong old annotation: at a fold site the old annotation describes another value
+
+
+def tie_refresh_fold(ctx, variant):
+    """the REAL function the way the fold sites call it, old annotation deliberately wrong:
+    (i) tie with the model (Annot.refresh_rw where the tree has the rewired mode, else the variant in force);
+    (ii) judged without a model: what is left on the output must be unknown or numpy's broadcast"""
+    rng = ctx.rng
+    rewired = refresh_supports_rewired()
+    pool = [("val", s) for s in VAL_SHAPES] + [("const", s) for s in CONST_SHAPES] + [("constns", s) for s in [(), (1,), (1, 1), (2,), (1, 3)]]
+    cases = [("Add", [a, b]) for a in pool for b in pool]
+    for _ in range(150 if ctx.tier == "quick" else 800):
+        cases.append((rng.choice(["Max", "Min", "Mul"]), [rng.choice(pool) for _ in range(3)]))
+    items, stale, wrong = [], [], []
+    n_judged = 0
+    for op, operands in cases:
+        r, _scal = real_refresh(op, operands, STALE, fold=True)
+        items.append("([" + "; ".join(enc_operand(k, s) for k, s in operands) + "], " + enc_odims(_shape_dims_of(STALE)) + ", " + enc_odims(r) + ")")
+        if r is None or not all(isinstance(d, int) for d in r):
+            continue
+        if not all(s is None or all(isinstance(d, int) for d in s) for _k, s in operands):
+            continue
+        for rt in (UNKNOWN_RUNTIME_SHAPES if any(k == "val" and s is None for k, s in operands) else [None]):
+            try:
+                truth = tuple(np.broadcast_shapes(*[tuple(rt if s is None else s) for _k, s in operands]))
+            except ValueError:
+                continue
+            n_judged += 1
+            if tuple(r) != truth:
+                (stale if tuple(r) == STALE else wrong).append((op, operands, list(r), list(truth)))
+                break
+    model = "refresh_rw" if rewired else f"refresh_variant {int(variant)}%nat"
+    defer_cases("c08_refresh_fold", "list operand * option (list dim) * option (list dim)", items,
+                f"fun c => let '(ins, out, r) := c in odims_eqb_ ({model} ins out) r",
+                lambda ok, bad, log: ctx.oblige(
+                    f"tie:model-{'refresh_rw' if rewired else 'refresh_variant(' + str(variant) + ')'}-equals-_refresh_elementwise_output_shape-at-fold-sites({len(items)} nodes)",
+                    ok and not bad, "tie", log if not ok else ("" if not bad else f"differ on {[cases[i] for i in bad[:4]]}")), per_file=700)
+    # CastLike in both modes
+    cl = []
+    for a in pool:
+        for b in pool[:6]:
+            for fold in (False, True):
+                r, _ = real_refresh("CastLike", [a, b], STALE, fold=fold)
+                cl.append(f"({common.blit(fold and rewired)}, [{enc_operand(*a)}; {enc_operand(*b)}], {enc_odims(_shape_dims_of(STALE))}, {enc_odims(r)})")
+    defer_cases("c08_castlike", "bool * list operand * option (list dim) * option (list dim)", cl,
+                "fun c => let '(rw, ins, out, r) := c in odims_eqb_ (castlike_refresh rw ins out) r",
+                lambda ok, bad, log: ctx.oblige(f"tie:model-castlike_refresh-equals-real-CastLike-branch({len(cl)} nodes)", ok and not bad, "tie",
+                                                log if not ok else f"bad {bad[:5]}"), per_file=700)
+
+    def fmt(ops):
+        return [(k, None if sh is None else list(sh)) for k, sh in ops]
+    ctx.coverage["refresh_at_fold_sites"] = {"rewired_mode_present": rewired, "nodes": len(items), "judged_against_numpy": n_judged,
+                                             "stale_annotation_kept": len(stale), "other_false": len(wrong)}
+    if stale:
+        op, operands, r, truth = stale[0]
+        ctx.violate("refresh:stale-annotation-kept-at-fold:node",
+                    f"_refresh_elementwise_output_shape called as the fold sites call it on {op}{fmt(operands)} with the (stale) old annotation {r} "
+                    f"keeps it; numpy broadcast of the new operands is {truth} ({len(stale)} of {n_judged} small nodes)",
+                    {"kind": "fold_node", "op": op, "operands": fmt(operands)})
+    for op, operands, r, truth in wrong[:3]:
+        ctx.violate(f"refresh:false-annotation-at-fold:{op}:{fmt(operands)}", f"writes {r}, numpy broadcast is {truth}",
+                    {"kind": "fold_node", "op": op, "operands": fmt(operands)})
+    return len(items) + len(cl)
+
+
+def fold_graphs():
+    """hand-built VALID graphs in which a reshape / transpose pair folds around an elementwise node with a side constant;
+    name -> (ir.Model factory).  `noshape`: the side constant has no declared shape (its new shape is then not computable)"""
+    import onnx_ir as ir
+    F, I = ir.DataType.FLOAT, ir.DataType.INT64
+
+    def side(noshape, payload=()):
+        arr = np.full(payload, 0.5, np.float32)
+        if noshape:
+            return ir.Value(name="c", type=ir.TensorType(F), const_value=ir.tensor(arr))
+        return ir.val("c", F, tuple(payload), const_value=ir.tensor(arr))
+
+    def reshape_pair(op, noshape):
+        x = ir.val("x", F, (6,))
+        s1 = ir.val("s1", I, (2,), const_value=ir.tensor(np.asarray([2, 3], np.int64)))
+        s2 = ir.val("s2", I, (1,), const_value=ir.tensor(np.asarray([6], np.int64)))
+        c = side(noshape)
+        a, b, y, z = ir.val("a", F, (2, 3)), ir.val("b", F, (2, 3)), ir.val("y", F, (6,)), ir.val("z", F, (6,))
+        nodes = [ir.Node("", "Reshape", [x, s1], outputs=[a], name="r1"), ir.Node("", op, [a, c], outputs=[b], name="e"),
+                 ir.Node("", "Reshape", [b, s2], outputs=[y], name="r2"), ir.Node("", "Relu", [y], outputs=[z], name="u")]
+        return ir.Model(ir.Graph([x], [z], nodes=nodes, initializers=[s1, s2, c], name="g", opset_imports={"": 21}), ir_version=10)
+
+    def transpose_pair(op, noshape):
+        x = ir.val("x", F, (2, 3))
+        c = side(noshape)
+        a, b, y, z = ir.val("a", F, (3, 2)), ir.val("b", F, (3, 2)), ir.val("y", F, (2, 3)), ir.val("z", F, (2, 3))
+        perm = lambda: [ir.Attr("perm", ir.AttributeType.INTS, [1, 0])]  # noqa: E731
+        nodes = [ir.Node("", "Transpose", [x], outputs=[a], attributes=perm(), name="t1"), ir.Node("", op, [a, c], outputs=[b], name="e"),
+                 ir.Node("", "Transpose", [b], outputs=[y], attributes=perm(), name="t2"), ir.Node("", "Relu", [y], outputs=[z], name="u")]
+        return ir.Model(ir.Graph([x], [z], nodes=nodes, initializers=[c], name="g", opset_imports={"": 21}), ir_version=10)
+    out = {}
+    for op in ("Max", "Add", "Mul"):
+        for noshape in (True, False):
+            tag = "noshape" if noshape else "declared"
+            out[f"reshape-pair:{op}:side-const-{tag}"] = (lambda op=op, ns=noshape: reshape_pair(op, ns))
+            out[f"transpose-pair:{op}:side-const-{tag}"] = (lambda op=op, ns=noshape: transpose_pair(op, ns))
+    return out
+
+
+def check_fold_graphs(ctx, only=None):
+    """after the REAL optimize_graph every remaining annotation of these graphs must agree with onnxruntime and must
+    pass onnx's strict shape inference"""
+    import onnx
+    import onnx_ir as ir
+    from jax2onnx.converter import ir_optimizations as opt
+    n_graphs = n_folded = n_values = 0
+    hits = []
+    for name, mk in fold_graphs().items():
+        if only and name != only:
+            continue
+        m = mk()
+        n0 = len(list(m.graph))
+        opt.optimize_graph(m)
+        n_graphs += 1
+        n_folded += len(list(m.graph)) < n0
+        p = ir.to_proto(m)
+        res = validate_model(p.SerializeToString(), "fold:" + name, "quick", ctx.seed if hasattr(ctx, "seed") else 0)
+        n_values += res["stats"]["values"]
+        why = None
+        if res["contradictions"]:
+            c = res["contradictions"][0]
+            why = f"value {c[2]} (output of {c[1]}): {c[3]}"
+        else:
+            try:
+                onnx.shape_inference.infer_shapes(p, strict_mode=True)
+            except Exception as e:  # noqa
+                why = "onnx strict shape inference rejects: " + str(e).strip().split("\n")[-1][:200]
+        if res["stats"]["runs"] == 0 or res["stats"]["runs_failed"]:
+            ctx.oblige(f"fold-graph:{name}:executed", False, "tie", str(res["notes"])[:300])
+        if why:
+            hits.append(name)
+            ctx.violate(f"fold:stale-annotation:{name}",
+                        f"after optimize_graph ({n0} -> {len(list(m.graph))} nodes) {why}", {"kind": "fold_graph", "graph": name})
+    if hasattr(ctx, "coverage"):
+        ctx.coverage["fold_graphs"] = {"graphs": n_graphs, "folded": n_folded, "annotated_values_observed": n_values, "stale": hits}
+    ctx.oblige("fold-graphs:folds-exercised", only is not None or n_folded > 0, "tie", f"{n_folded} of {n_graphs} graphs folded")
+    return n_graphs
+
+
 def check_unary_propagation(ctx):
     """the REAL propagate_unary_shapes_ir on one small node per operator of the real UNARY_DATAFLOW_OPS (and per way of
     giving it a second, differently shaped operand), judged against onnx's own strict shape inference"""
@@ -1289,6 +1447,11 @@ def run(ctx):
         evals += tie_loosen(ctx)
     except Exception:  # noqa
         ctx.oblige("tie:loosen-model", False, "tie", traceback.format_exc()[-1500:])
+    try:
+        evals += tie_refresh_fold(ctx, variant)
+        evals += check_fold_graphs(ctx)
+    except Exception:  # noqa
+        ctx.oblige("tie:refresh-at-fold-sites", False, "tie", traceback.format_exc()[-1500:])
     try:
         check_unary_propagation(ctx)
     except Exception:  # noqa
@@ -1502,6 +1665,29 @@ def replay(path):
         w = refresh_witness_real(int(rep.get("variant", 1)))
         print(w or "the witness is annotated correctly now")
         return 1 if w else 0
+    if rep.get("kind") in ("fold_node", "fold_graph"):
+        class _C2:
+            seed = 0
+
+            def __init__(self):
+                self.violations, self.coverage = [], {}
+
+            def violate(self, k, w, r):
+                self.violations.append((k, w))
+
+            def oblige(self, *a, **k):
+                pass
+        c2 = _C2()
+        if rep["kind"] == "fold_graph":
+            check_fold_graphs(c2, only=rep["graph"])
+        else:
+            operands = [(k, None if sh is None else tuple(sh)) for k, sh in rep["operands"]]
+            rr, _ = real_refresh(rep["op"], operands, STALE, fold=True)
+            print("left on the output:", rr)
+            if rr is not None and tuple(rr) == STALE:
+                c2.violations.append(("stale", rr))
+        print(c2.violations or "annotated correctly now")
+        return 1 if c2.violations else 0
     if rep.get("kind") == "unary_node":
         class _C:
             def __init__(self):
